@@ -3,6 +3,14 @@ open Irismod Irismod.Sdk Irismod.Farm Irismod.Spec Irismod.Spec.C06 Irismod.Prop
 #print axioms conserved_run
 #print axioms refund_once_run
 #print axioms refund_pays_remaining
+#print axioms refund_community_pool
+#print axioms cp_tally_cases
+#print axioms cp_pass_funds_pool
+#print axioms cp_refunded
+#print axioms cp_fail_deposit_refunded
+#print axioms cp_settled_once
+#print axioms refund_escrow_never_partial
+#print axioms cp_handler_guards_never_fire
 #print axioms release_exact
 #print axioms budget_step
 #print axioms budget_run
@@ -22,3 +30,33 @@ open Irismod Irismod.Sdk Irismod.Farm Irismod.Spec Irismod.Spec.C06 Irismod.Prop
   decide (r.released = 2) && decide (r.remaining = 98) && decide (r.total = 100) && decide (l.n = 3) && decide (l.paid = 2) &&
   decide (r2.nRefund = 1) && decide (r2.refunded = 98) && decide (r2.remaining = 0) && decide (s2.bank.balOf "A0" "btc" = 998) &&
   decide ((apply s2 (.destroyPool "A0" "farm-1")).bank.balOf "A0" "btc" = 998)}"
+
+-- non-vacuity for community-pool farms (history w3): proposal 1 is in its voting period with its escrow info on
+-- record, the pass creates farm-1 with budget 1000 btc + 50 eth and debits the escrow collector by exactly that;
+-- proposal 2 is refunded (A0 gets the deposit back, the community pool its 200 btc); after the pool's end its rules
+-- are refunded exactly once and the 500 btc left are in the community pool; a second pass / a reject change nothing;
+-- the C06 monitor accepts every step
+#eval s!"nonvacuous {
+  let s3 := run w3Genesis (w3Ops.take 3)
+  let s4 := run w3Genesis (w3Ops.take 4)
+  let s5 := run w3Genesis (w3Ops.take 5)
+  let s7 := run w3Genesis (w3Ops.take 7)
+  let r := ((getPool s7 "farm-1").getD default).rules
+  ((AMap.get? s3.cp.props 1).map (·.status) == some .voting) && (AMap.get? s3.cp.escrow 1).isSome &&
+  ((AMap.get? s4.cp.props 1).map (·.status) == some .passed) && (AMap.get? s4.cp.escrow 1).isNone &&
+  decide (s4.bank.balOf escrowAcc "btc" + 1000 = s3.bank.balOf escrowAcc "btc") && decide (s4.bank.balOf farmAcc "btc" = 1000) &&
+  decide (s4.bank.balOf farmAcc "eth" = 50) && decide (s4.bank.balOf "A0" "stake" = s3.bank.balOf "A0" "stake" + 10000000) &&
+  (AMap.get? s5.cp.props 2).isNone && decide (Spec.C05.cpoolOf s5 "btc" = Spec.C05.cpoolOf s4 "btc" + 200 * decUnit) &&
+  decide (s5.bank.balOf "A0" "stake" = s4.bank.balOf "A0" "stake" + 100000) &&
+  (r.all fun x => x.nRefund == 1 && x.remaining == 0) && decide (Spec.C05.cpoolOf s7 "btc" = 4500 * decUnit) &&
+  (apply (apply s7 (.cpPass 1)) (.cpReject 1)).bank.bal == s7.bank.bal &&
+  ((List.range 9).foldl (fun (acc : Mon × Bool) k =>
+     let pre := run w3Genesis (w3Ops.take k)
+     let op := w3Ops.getD k (.endBlocks 1)
+     let post := apply pre op
+     let res := match op with
+       | .cpPass pid | .cpReject pid => if govDue pre pid false then "ok" else "rej"
+       | .cpFailDeposit pid => if govDue pre pid true then "ok" else "rej"
+       | _ => "ok"
+     let r := check acc.1 pre op res post
+     (r.1, acc.2 && r.2.isEmpty)) (Mon.init w3Genesis, true)).2}"
